@@ -16,6 +16,7 @@ OBLIGATIONS = [
     "NanoVerif.C01.advance_rule",
     "NanoVerif.C04.glyphName_legal",
     "NanoVerif.TrProofs.pop_flag_eq",
+    "NanoVerif.TrProofs.default_quantization_eq",
 ]
 DESIGN_REF = "DESIGN.md §5 C20"
 LEVEL_TEXT = ("Partial proof. Proved / kernel-decided (shared with C10): flag > file > default for every field; the writer, loader, constructor and flag "
